@@ -15,11 +15,14 @@ EXPLANATION = (
     "The facts are decided by EVALUATING the repository's code, not by matching its shape. (1) SimTimeCondition.evaluate and TimeOfDayCondition.evaluate are run "
     "by a tree-walking interpreter (sa/concrete.py; nothing is imported or executed natively) on objects placed in every representative ordering of previous "
     "time < current time against the threshold instants, per relation and repeat mode, and the returned truth value and back-track are compared with the "
-    "instant / interval semantics of the statement; the model's shifted-time properties are evaluated the same way. (2) The pre-solve scheduler, the feasibility "
+    "instant / interval semantics of the statement (range relations are true exactly while the relation holds at the current time, whatever the previous time: "
+    "`>` / `<` strict, `>=` / `<=` inclusive, for both classes alike); the model's shifted-time properties are evaluated the same way. (2) The pre-solve scheduler, the feasibility "
     "and the post-solve runner of the simulator are run by the same interpreter on stand-in controls, rules, checkers and change tracker over a family of "
     "scenarios (ties reported out of priority order, several instants, rule instants before / at / after control instants, first step, continued run, with and "
     "without trace logging) and the observable schedule -- which action runs in which order, at which times the rules are evaluated, the rule clock and sim_time "
-    "on return -- is compared with an independently computed oracle. (3) What run_sim hands to the scheduler (rule clock on a first step, return to the "
+    "on return, the (previous, current) time window the conditions see while the rules are checked -- is compared with an independently computed oracle; "
+    "rules carrying REAL SimTimeCondition objects (evaluated by the interpreter inside the simulated rule check) must be reported true exactly at the rule "
+    "instants at which their condition holds, an `=` rule at one instant only. (3) What run_sim hands to the scheduler (rule clock on a first step, return to the "
     "hydraulic grid after a step) is obtained by path-enumerating symbolic execution with sympy normal forms. (4) The classification of controls (type stored "
     "by Control / Rule per concrete condition class, which checker receives which type from which source) is obtained by symbolic execution in which the tests "
     "are decided for one concrete case at a time and helpers are executed in place, so if-chains, early returns, conditional expressions and lookup tables are "
@@ -157,18 +160,19 @@ def judge(rel, prev, cur, thr, period, res, bt, frame):
         if want and (bt is None or abs(bt - (cur - hit)) > 1e-9):
             return (region, False, "backtrack %s, expected %g s" % (bt, cur - hit))
         return (region, True, "")
+    # range relations (before / after, <, <=, >, >=): true exactly while the relation holds at the current time, whatever the previous time was
+    # (`>` and `<` are strict, `>=` and `<=` include the threshold instant; a step that straddles the threshold does not keep `<=` true)
     f = RELS[rel]
-    # the keywords after / before (gt / lt) are accepted with either inclusivity at the single instant t = threshold
-    f_true = {"gt": RELS["ge"], "lt": RELS["le"]}.get(rel, f)
+    want = bool(f(frame(cur), thr))
+    if bool(res) != want:
+        return (region, False, "%s, but `%s` %s at the current time %gh (clock %gh vs threshold %gh)" % (
+            "True" if res else "False", rel, "holds" if want else "does not hold", cur / H, frame(cur) / H, thr / H))
     if res:
         if bt is None or bt < 0 or bt > cur - prev:
             return (region, False, "True with backtrack %s outside [0, cur-prev]" % bt)
         tstar = cur - bt
-        if not f_true(frame(tstar), thr):
+        if not f(frame(tstar), thr):
             return (region, False, "True, but `%s` does not hold at the acting time %gh (clock %gh vs threshold %gh)" % (rel, tstar / H, frame(tstar) / H, thr / H))
-        return (region, True, "")
-    if f(frame(cur), thr):
-        return (region, False, "False, but `%s` holds at the current time %gh (clock %gh vs threshold %gh)" % (rel, cur / H, frame(cur) / H, thr / H))
     return (region, True, "")
 
 
@@ -247,7 +251,27 @@ def condition_rules(repo, chk):
                    "time condition truth table over the orderings of previous < current time against the threshold (threshold 2:00)",
                    expected="instant/interval semantics of the statement", found="; ".join("%s: %s" % b for b in bad[:4]))
         chk.sample({"rule": "R-C04-1", "condition": cname, "relation": rel, "mode": mode, "regions": len(rows), "failing": [b[0] for b in bad]})
-    chk.floor("R-C04-1", 16)
+    # sibling agreement at the threshold instant itself: `>` / `<` are strict and `>=` / `<=` inclusive for BOTH condition classes and repeat modes
+    for rel, incl in (("gt", False), ("ge", True), ("lt", False), ("le", True)):
+        got = {}
+        for thr, prev in ((2 * H, 1 * H), (12.25 * H, 12 * H)):
+            variants = (("SimTimeCondition once", "SimTimeCondition", {"_repeat": False, "_first_time": 0}),
+                        ("TimeOfDayCondition once", "TimeOfDayCondition", {"_repeat": False, "_first_day": 0}),
+                        ("TimeOfDayCondition daily", "TimeOfDayCondition", {"_repeat": True, "_first_day": 0}),
+                        ("TimeOfDayCondition daily, second day", "TimeOfDayCondition", {"_repeat": True, "_first_day": 0, "day": 1}))
+            for vname, cname, extra in variants:
+                extra = dict(extra)
+                off = DAY * extra.pop("day", 0)
+                attrs = {"_model": model_at(thr + off, prev + off, 0.0), "_threshold": thr, "_relation": getattr(cmp_, rel), "_backtrack": 0}
+                attrs.update(extra)
+                res, bt, err = evaluate(cname, attrs)
+                got["%s, threshold %gh" % (vname, thr / H)] = ("raised " + err) if err else bool(res)
+        keyword = {"gt": "after / >", "ge": ">=", "lt": "before / <", "le": "<="}[rel]
+        chk.expect(all(v is incl for v in got.values()), "R-C04-1",
+                   "relation %s (%s) exactly at the threshold instant is %s for sim-time and clock-time conditions alike" % (rel, keyword, incl), loc(tod_fn),
+                   "EPANET and the sibling class treat `>` / `<` as strict and `>=` / `<=` as inclusive; a class that differs makes `AFTER t` act one step early",
+                   expected=incl, found=dict((k, v) for k, v in got.items() if v is not incl) or got)
+    chk.floor("R-C04-1", 20)
 
     # frames: the model's shifted time adds start_clocktime to both current and previous time (the properties are evaluated on a model object)
     for prop, base in (("_shifted_time", "sim_time"), ("_prev_shifted_time", "_prev_sim_time")):
@@ -353,6 +377,14 @@ SCENARIOS = [
          pres=[("a", 1, 250, 1)], rules=[]),
     dict(label="continued run: rule clock well inside the simulation", T=50 * T0, r=900, k0=197, first=False,
          pres=[("a", 1, 1000, 0), ("b", 1, 900, 0)], rules=[("R", 1, 0, 10 ** 9, 0)]),
+    # rules that carry real time conditions (hydraulic step 3600 s, last solution at 3600 s, rule step 600 s): what a condition sees while the rules are checked
+    dict(label="time rules between two hydraulic solutions: `=` on and off the rule grid, range relations, nothing changes", T=2 * T0, prev=T0, r=600, k0=7, first=False, real=True,
+         pres=[], rules=[("at_on_grid", 1, "=", 4800, 0), ("at_off_grid", 2, "=", 5000, 0), ("from", 3, ">=", 6000, 0), ("until", 3, "<=", 4300, 0),
+                         ("after", 2, ">", 6600, 0), ("before", 1, "<", 4800, 0)]),
+    dict(label="time rules before, at and after a control instant, nothing changes", T=2 * T0, prev=T0, r=600, k0=7, first=False, real=True,
+         pres=[("c", 2, 1800, 0)], rules=[("at_first", 1, "=", 4100, 0), ("at_second", 2, "=", 4800, 0), ("at_off_grid", 3, "=", 5000, 0), ("at_last", 1, "=", 7200, 0)]),
+    dict(label="an `=` rule off the rule grid changes the network at the first rule instant after its time", T=2 * T0, prev=T0, r=600, k0=7, first=False, real=True,
+         pres=[("late", 1, 600, 1)], rules=[("earlier", 2, "=", 4700, 0), ("acting", 1, "=", 5000, 1)]),
 ]
 RUNNERS = [
     ("_run_feasibility_controls", "_feasibility_controls", "feasibility"),
@@ -377,7 +409,7 @@ def scheduler_oracle(sc):
             groups[-1][1].append(i)
         else:
             groups.append((pres[i][2], [i]))
-    runs, checks, changed, final, gi = [], [], False, T, 0
+    runs, checks, true_at, changed, final, gi = [], [], [], False, T, 0
     while gi < len(groups) or k * r <= T:
         if gi >= len(groups):
             mode = "rules"
@@ -388,7 +420,8 @@ def scheduler_oracle(sc):
             t = k * r
             k += 1
             checks.append(t)
-            act = [j for j, ru in enumerate(sc["rules"]) if ru[2] <= t <= ru[3]]
+            act = [j for j, ru in enumerate(sc["rules"]) if rule_holds(ru, t, t - r)]
+            true_at.extend((sc["rules"][j][0], t) for j in act if isinstance(sc["rules"][j][2], str))
             act.sort(key=lambda j: sc["rules"][j][1])
             for j in act:
                 runs.append(sc["rules"][j][0])
@@ -403,7 +436,18 @@ def scheduler_oracle(sc):
         if changed:
             final = t
             break
-    return dict(runs=runs, checks=checks, final=final, k=k)
+    return dict(runs=runs, checks=checks, final=final, k=k, true_at=true_at, windows=[(t - r, t) for t in checks])
+
+
+def rule_holds(ru, t, since):
+    """is the rule's condition true when the rules are evaluated at the rule instant t (the previous rule instant being `since`)?  A stand-in is
+    true on its interval; a time condition with a range relation is true exactly while the relation holds at t; an `=` condition is true at the
+    one rule instant whose window (since, t] contains the threshold -- the first rule instant at or after it."""
+    if not isinstance(ru[2], str):
+        return ru[2] <= t <= ru[3]
+    if ru[2] == "=":
+        return since < ru[3] <= t
+    return RELS[REAL_RELS[ru[2]]](t, ru[3])
 
 
 def simulator_world(repo, box):
@@ -412,27 +456,57 @@ def simulator_world(repo, box):
     def heads(wn):
         box["heads"].append(wn.sim_time)
     hyd = Namespace("wntr.sim.hydraulics", update_tank_heads=heads)
-    world, _ = make_world(repo, {"wntr.sim.hydraulics": hyd})
+    world, cmp_ = make_world(repo, {"wntr.sim.hydraulics": hyd})
+    world.cmp_enum = cmp_
     return world
 
 
-def simulator_instance(world, box, T, r, k0, pres, rules, extra=None):
-    """a WNTRSimulator whose collaborators are stand-ins; -> (sim, wn)"""
+REAL_RELS = {"=": "eq", ">=": "ge", ">": "gt", "<=": "le", "<": "lt"}
+
+
+def simulator_instance(world, box, T, r, k0, pres, rules, extra=None, prev=None):
+    """a WNTRSimulator whose collaborators are stand-ins; -> (sim, wn).  A rule given as (name, priority, relation text, threshold, changes)
+    carries a real SimTimeCondition of the repository (evaluated by the interpreter on the model's sim_time / _prev_sim_time whenever the
+    rules are checked); one given as (name, priority, from, to, changes) is simply true while from <= sim_time <= to."""
     times = Mock("options.time", rule_timestep=r, hydraulic_timestep=T0, report_timestep=T0, pattern_timestep=T0, duration=100 * T0, start_clocktime=0)
-    wn = Mock("wn", sim_time=T, _prev_sim_time=(T - T0 if T else -1), options=Mock("options", time=times), name="mock")
+    if prev is None:
+        prev = T - T0 if T else -1
+    wn = Mock("wn", sim_time=T, _prev_sim_time=prev, options=Mock("options", time=times), name="mock")
     pres_objs = [(_MCtl(box, n, p, eff), b) for (n, p, b, eff) in pres]
-    rule_objs = [_MCtl(box, n, p, eff, (a0, a1)) for (n, p, a0, a1, eff) in rules]
+    rule_objs = []
+    for (n, p, a0, a1, eff) in rules:
+        ru = _MCtl(box, n, p, eff, (a0, a1))
+        ru.cond = None
+        if isinstance(a0, str):
+            ru.cond = instance_of(world, CTRL, "SimTimeCondition", _model=wn, _threshold=a1, _relation=getattr(world.cmp_enum, REAL_RELS[a0]), _repeat=False,
+                                  _backtrack=0, _first_time=0)
+        rule_objs.append(ru)
 
     def check_rules():
         box["checks"].append(wn.sim_time)
+        box["windows"].append((wn._prev_sim_time, wn.sim_time))
         if len(box["checks"]) > 200:
             raise _Runaway("more than 200 evaluations of the rules in one call")
-        return [(ru, 0) for ru in rule_objs if ru.active[0] <= wn.sim_time <= ru.active[1]]
+        out = []
+        for ru in rule_objs:
+            if ru.cond is None:
+                hit = ru.active[0] <= wn.sim_time <= ru.active[1]
+            else:
+                hit = bool(world.interp.getattr_(ru.cond, "evaluate")())
+                if hit:
+                    box["true_at"].append((ru.name, wn.sim_time))
+            if hit:
+                out.append((ru, 0))
+        return out
     attrs = dict(_wn=wn, _change_tracker=_MTracker(box), _presolve_controls=_MChecker(lambda: list(pres_objs)), _rules=_MChecker(check_rules),
                  _postsolve_controls=_MChecker(lambda: []), _feasibility_controls=_MChecker(lambda: []), _rule_iter=k0,
                  _hydraulic_timestep=T0, _report_timestep=T0, mode="DD")
     attrs.update(extra or {})
     return instance_of(world, CORE, "WNTRSimulator", **attrs), wn
+
+
+def new_box():
+    return dict(runs=[], checks=[], heads=[], windows=[], true_at=[], changed=False)
 
 
 def sort_order_rules(repo, chk, rule):
@@ -465,10 +539,13 @@ def scheduler_rules(repo, chk, order="R-C04-3", clock="R-C04-4", time="R-C04-6")
         for sc in SCENARIOS:
             if log_level == 1 and sc is not SCENARIOS[0] and sc is not SCENARIOS[4]:
                 continue            # the trace-logging variant of the code paths is exercised on two scenarios
-            box = dict(runs=[], checks=[], heads=[], changed=False)
+            box = new_box()
             world = simulator_world(repo, box)
             world.log_state["log_level"] = log_level
-            sim, wn = simulator_instance(world, box, sc["T"], sc["r"], sc["k0"], sc["pres"], sc["rules"])
+            sim, wn = simulator_instance(world, box, sc["T"], sc["r"], sc["k0"], sc["pres"], sc["rules"], prev=sc.get("prev"))
+            prev0 = wn._prev_sim_time
+            if sc["k0"] * sc["r"] <= sc["T"] and prev0 > (sc["k0"] - 1) * sc["r"]:
+                raise ExtractError("scenario %r: the last solution must not lie after the rule instant before the first one evaluated" % sc["label"])
             label = sc["label"] + (" [trace logging on]" if log_level == 1 else "")
             want = scheduler_oracle(sc)
             runaway = None
@@ -476,15 +553,15 @@ def scheduler_rules(repo, chk, order="R-C04-3", clock="R-C04-4", time="R-C04-6")
                 _, err = interpreted(SCHED, lambda: world.interp.getattr_(sim, SCHED)(sc["first"]))
             except _Runaway as e:
                 err, runaway = None, str(e)
-            got = dict(runs=box["runs"], checks=box["checks"], final=wn.sim_time, k=sim._attrs.get("_rule_iter"))
-            setting = "T = %d s, rule timestep %d s, rule clock %d, first_step = %s; pre-solve (name, priority, back-track, changes): %s; rules (name, priority, true from, to, changes): %s" % (
+            got = dict(runs=box["runs"], checks=box["checks"], final=wn.sim_time, k=sim._attrs.get("_rule_iter"), windows=box["windows"], true_at=box["true_at"])
+            setting = "T = %d s, rule timestep %d s, rule clock %d, first_step = %s; pre-solve (name, priority, back-track, changes): %s; rules (name, priority, true from, to | relation, time, changes): %s" % (
                 sc["T"], sc["r"], sc["k0"], sc["first"], sc["pres"], sc["rules"])
             if err:
                 for rule in (order, clock, time):
                     if rule is not None:
                         chk.bad(rule, "[%s] the scheduler runs" % label, loc(pre), setting, found="raises " + err)
                 continue
-            expect(order, runaway is None and got["runs"] == want["runs"],
+            expect(None if sc.get("real") else order, runaway is None and got["runs"] == want["runs"],
                        "[%s] actions run in time order and, at one instant, ascending by priority (the highest priority acts last and wins)" % label, loc(pre),
                        setting + " -- the scheduler rewinds to the first instant at which something changes and stops: an order whose primary key is not the firing "
                        "instant lets a control crossed later in the step pre-empt one crossed earlier; among equal instants the last writer wins",
@@ -492,13 +569,25 @@ def scheduler_rules(repo, chk, order="R-C04-3", clock="R-C04-4", time="R-C04-6")
             expect(clock, runaway is None and got["checks"] == want["checks"] and got["k"] == want["k"],
                        "[%s] rules are evaluated at the consecutive multiples of the rule timestep up to the step's end, each once, and the rule clock ends after the last one evaluated" % label,
                        loc(pre), setting, expected="evaluated at %s, clock -> %s" % (want["checks"], want["k"]), found=runaway or "evaluated at %s, clock -> %s" % (got["checks"], got["k"]))
+            if want["checks"]:
+                expect(clock, runaway is None and got["windows"] == want["windows"] and wn._prev_sim_time == prev0,
+                       "[%s] while the rules are evaluated at a rule instant the time conditions see the window (previous rule instant, this rule instant]; "
+                       "the time of the last hydraulic solution is back in place afterwards" % label, loc(pre),
+                       setting + " -- on the window since the last hydraulic solution an `=` time rule is true again at every rule instant until the next solution",
+                       expected="%s, then _prev_sim_time = %s" % (want["windows"], prev0), found=runaway or "%s, then _prev_sim_time = %s" % (got["windows"], wn._prev_sim_time))
+            if sc.get("real"):
+                expect(clock, runaway is None and got["true_at"] == want["true_at"] and got["runs"] == want["runs"],
+                       "[%s] a time rule is reported true, and acts, exactly at the rule instants at which its condition holds: an `=` rule at the first rule instant "
+                       "at or after its time and at no other, a range rule at every rule instant inside its interval" % label, loc(pre),
+                       setting + " -- a rule that is true again at later rule instants re-applies its action and undoes what a later-firing rule did",
+                       expected="true at %s; actions %s" % (want["true_at"], want["runs"]), found=runaway or "true at %s; actions %s" % (got["true_at"], got["runs"]))
             expect(time, runaway is None and got["final"] == want["final"],
                        "[%s] sim_time on return is the first instant at which something changed (the unshortened step if nothing did; never before t = 0 on the first step)" % label,
                        loc(pre), setting, expected=want["final"], found=runaway or got["final"])
             chk.sample({"rule": order or clock or time, "scenario": label, "runs": got["runs"], "rule_evaluations": got["checks"], "sim_time": got["final"], "rule_clock": got["k"]})
-    for rule in (order, clock, time):
+    for rule, n in ((order, len([sc for sc in SCENARIOS if not sc.get("real")])), (clock, len(SCENARIOS)), (time, len(SCENARIOS))):
         if rule is not None:
-            chk.floor(rule, len(SCENARIOS))
+            chk.floor(rule, n)
 
     # the two other runners: feasibility and post-solve controls act ascending by priority (ties in reported order)
     for meth, attr, what in RUNNERS:
@@ -506,7 +595,7 @@ def scheduler_rules(repo, chk, order="R-C04-3", clock="R-C04-4", time="R-C04-6")
         chk.fn(fn)
         for lst in RUNNER_LISTS:
             for log_level in (30, 1):
-                box = dict(runs=[], checks=[], heads=[], changed=False)
+                box = new_box()
                 world = simulator_world(repo, box)
                 world.log_state["log_level"] = log_level
                 objs = [(_MCtl(box, n, p, eff), b) for (n, p, b, eff) in lst]
@@ -1101,10 +1190,16 @@ def classification_rules(repo, chk, rule):
 
 
 WITNESSES = [
-    dict(name="simtime-eq-strict", file=CTRL, old="        if self._relation is Comparison.eq and (prev_time < self._threshold and self._threshold <= cur_time):\n            self._backtrack = int(cur_time - self._threshold)\n            return True\n        elif self._relation is Comparison.gt and cur_time > self._threshold:",
-         new="        if self._relation is Comparison.eq and (prev_time < self._threshold and self._threshold < cur_time):\n            self._backtrack = int(cur_time - self._threshold)\n            return True\n        elif self._relation is Comparison.gt and cur_time > self._threshold:", rule="R-C04-1"),
-    dict(name="simtime-backtrack-sign", file=CTRL, old="        elif self._relation is Comparison.ge and cur_time >= self._threshold and prev_time < self._threshold:\n            self._backtrack = int(cur_time - self._threshold)",
-         new="        elif self._relation is Comparison.ge and cur_time >= self._threshold and prev_time < self._threshold:\n            self._backtrack = int(self._threshold - cur_time)", rule="R-C04-1"),
+    dict(name='simtime-eq-strict',
+         file=CTRL,
+         rule='R-C04-1',
+         old='            prev_time = prev_time - periods * self._repeat\n        if self._relation is Comparison.eq and (prev_time < self._threshold and self._threshold <= cur_time):\n            self._backtrack = int(cur_time - self._threshold)\n            return True\n',
+         new='            prev_time = prev_time - periods * self._repeat\n        if self._relation is Comparison.eq and (prev_time < self._threshold and self._threshold < cur_time):\n            self._backtrack = int(cur_time - self._threshold)\n            return True\n'),
+    dict(name='simtime-backtrack-sign',
+         file=CTRL,
+         rule='R-C04-1',
+         old='            prev_time = prev_time - periods * self._repeat\n        if self._relation is Comparison.eq and (prev_time < self._threshold and self._threshold <= cur_time):\n            self._backtrack = int(cur_time - self._threshold)\n            return True\n        elif self._relation is Comparison.gt and cur_time > self._threshold:\n            self._backtrack = 0\n            return True\n        elif self._relation is Comparison.ge and cur_time >= self._threshold and prev_time < self._threshold:\n            self._backtrack = int(cur_time - self._threshold)\n',
+         new='            prev_time = prev_time - periods * self._repeat\n        if self._relation is Comparison.eq and (prev_time < self._threshold and self._threshold <= cur_time):\n            self._backtrack = int(cur_time - self._threshold)\n            return True\n        elif self._relation is Comparison.gt and cur_time > self._threshold:\n            self._backtrack = 0\n            return True\n        elif self._relation is Comparison.ge and cur_time >= self._threshold and prev_time < self._threshold:\n            self._backtrack = int(self._threshold - cur_time)\n'),
     dict(name="priority-descending", file=CORE, old="        postsolve_controls_to_run.sort(key=lambda i: i[0]._priority)", new="        postsolve_controls_to_run.sort(key=lambda i: i[0]._priority, reverse=True)", rule="R-C04-3"),
     dict(name="merged-sort", file=CORE, old="        presolve_controls_to_run.sort(key=lambda i: i[0]._priority)  # sort them by priority\n", new="", rule="R-C04-3"),
     dict(name="rule-clock-starts-at-zero", file=CORE, old="            self._rule_iter = 1\n", new="            self._rule_iter = 0\n", rule="R-C04-4"),
@@ -1172,8 +1267,8 @@ WITNESSES = [
     dict(name='quiet-simtime-hoisted-threshold-early-returns',
          file=CTRL,
          silent=True,
-         old="        elif self._relation is Comparison.lt and cur_time < self._threshold:\n            self._backtrack = 0\n            return True\n        elif self._relation is Comparison.le and cur_time <= self._threshold:\n            self._backtrack = 0\n            return True\n        elif self._relation is Comparison.le and prev_time < self._threshold:\n            self._backtrack = int(cur_time - self._threshold)\n            return True\n        else:\n            self._backtrack = 0\n            return False\n\n\n@DocInheritor({'requires', 'evaluate', 'name'})\nclass ValueCondition",
-         new="        limit = self._threshold\n        below = {Comparison.lt: cur_time < limit, Comparison.le: cur_time <= limit}\n        if below.get(self._relation, False) == True:\n            self._backtrack = 0\n            return True\n        if self._relation is Comparison.le and not prev_time >= limit:\n            self._backtrack = int(cur_time - limit)\n            return True\n        self._backtrack = 0\n        return False\n\n\n@DocInheritor({'requires', 'evaluate', 'name'})\nclass ValueCondition"),
+         old="        elif self._relation is Comparison.lt and cur_time < self._threshold:\n            self._backtrack = 0\n            return True\n        elif self._relation is Comparison.le and cur_time <= self._threshold:\n            self._backtrack = 0\n            return True\n        else:\n            self._backtrack = 0\n            return False\n\n\n@DocInheritor({'requires', 'evaluate', 'name'})\nclass ValueCondition",
+         new="        limit = self._threshold\n        below = {Comparison.lt: cur_time < limit, Comparison.le: cur_time <= limit}\n        if below.get(self._relation, False) == True:\n            self._backtrack = 0\n            return True\n        self._backtrack = 0\n        return False\n\n\n@DocInheritor({'requires', 'evaluate', 'name'})\nclass ValueCondition"),
     dict(name='tank-level-controls-not-postsolve',
          file=CORE,
          rule='R-C04-5',
@@ -1240,4 +1335,70 @@ WITNESSES = [
          rule='R-C04-5',
          old='        if isinstance(condition, TankLevelCondition):\n            return _ControlType.pre_and_postsolve\n',
          new='        if isinstance(condition, ValueCondition):\n            return _ControlType.pre_and_postsolve\n'),
+    # ---- the three repairs found against EPANET 2.2 (/repo a92e449a, dce60b58, f298b1a9): each revert, site by site, and equivalent spellings of the repaired code
+    dict(name='le-true-after-the-threshold-simtime',
+         file=CTRL,
+         rule='R-C04-1',
+         old="        elif self._relation is Comparison.le and cur_time <= self._threshold:\n            self._backtrack = 0\n            return True\n        else:\n            self._backtrack = 0\n            return False\n\n\n@DocInheritor({'requires', 'evaluate', 'name'})\nclass ValueCondition",
+         new="        elif self._relation is Comparison.le and cur_time <= self._threshold:\n            self._backtrack = 0\n            return True\n        elif self._relation is Comparison.le and prev_time < self._threshold:\n            self._backtrack = int(cur_time - self._threshold)\n            return True\n        else:\n            self._backtrack = 0\n            return False\n\n\n@DocInheritor({'requires', 'evaluate', 'name'})\nclass ValueCondition"),
+    dict(name='le-true-after-the-threshold-clocktime-once',
+         file=CTRL,
+         rule='R-C04-1',
+         old="        elif self._relation is Comparison.le and cur_time <= self._threshold:\n            self._backtrack = 0\n            return True\n        else:\n            self._backtrack = 0\n            return False\n\n\n@DocInheritor({'requires', 'evaluate', 'name'})\nclass SimTimeCondition",
+         new="        elif self._relation is Comparison.le and cur_time <= self._threshold:\n            self._backtrack = 0\n            return True\n        elif self._relation is Comparison.le and prev_time < self._threshold:\n            self._backtrack = int(cur_time - self._threshold)\n            return True\n        else:\n            self._backtrack = 0\n            return False\n\n\n@DocInheritor({'requires', 'evaluate', 'name'})\nclass SimTimeCondition"),
+    dict(name='le-true-after-the-threshold-clocktime-daily',
+         file=CTRL,
+         rule='R-C04-1',
+         old='                if clock <= self._threshold:\n                    self._backtrack = 0\n                    return True\n            self._backtrack = 0\n            return False\n',
+         new='                if clock <= self._threshold:\n                    self._backtrack = 0\n                    return True\n                elif crossed:\n                    self._backtrack = int(since)\n                    return True\n            self._backtrack = 0\n            return False\n'),
+    dict(name='clocktime-after-inclusive-daily',
+         file=CTRL,
+         rule='R-C04-1',
+         old='                if clock > self._threshold:\n',
+         new='                if clock >= self._threshold:\n'),
+    dict(name='clocktime-after-inclusive-once',
+         file=CTRL,
+         rule='R-C04-1',
+         old='        prev_time = prev_time - self._first_day * 86400.\n        if self._relation is Comparison.eq and (prev_time < self._threshold and self._threshold <= cur_time):\n            self._backtrack = int(cur_time - self._threshold)\n            return True\n        elif self._relation is Comparison.gt and cur_time > self._threshold:\n            self._backtrack = 0\n            return True\n',
+         new='        prev_time = prev_time - self._first_day * 86400.\n        if self._relation is Comparison.eq and (prev_time < self._threshold and self._threshold <= cur_time):\n            self._backtrack = int(cur_time - self._threshold)\n            return True\n        elif self._relation is Comparison.gt and cur_time >= self._threshold:\n            self._backtrack = 0\n            return True\n'),
+    dict(name='simtime-after-inclusive',
+         file=CTRL,
+         rule='R-C04-1',
+         old='            prev_time = prev_time - periods * self._repeat\n        if self._relation is Comparison.eq and (prev_time < self._threshold and self._threshold <= cur_time):\n            self._backtrack = int(cur_time - self._threshold)\n            return True\n        elif self._relation is Comparison.gt and cur_time > self._threshold:\n            self._backtrack = 0\n            return True\n        elif self._relation is Comparison.ge and cur_time >= self._threshold and prev_time < self._threshold:\n            self._backtrack = int(cur_time - self._threshold)\n',
+         new='            prev_time = prev_time - periods * self._repeat\n        if self._relation is Comparison.eq and (prev_time < self._threshold and self._threshold <= cur_time):\n            self._backtrack = int(cur_time - self._threshold)\n            return True\n        elif self._relation is Comparison.gt and cur_time >= self._threshold:\n            self._backtrack = 0\n            return True\n        elif self._relation is Comparison.ge and cur_time >= self._threshold and prev_time < self._threshold:\n            self._backtrack = int(cur_time - self._threshold)\n'),
+    dict(name='rules-see-solution-window-when-no-control-pending',
+         file=CORE,
+         rule='R-C04-4',
+         old='                self._rule_iter += 1\n                rules_to_run = self._check_rules()\n',
+         new='                self._rule_iter += 1\n                rules_to_run = self._rules.check()\n'),
+    dict(name='rules-see-solution-window-at-a-control-instant',
+         file=CORE,
+         rule='R-C04-4',
+         old='                    self._wn.sim_time -= backtrack\n                    if not first_step:\n                        wntr.sim.hydraulics.update_tank_heads(self._wn)\n                    rules_to_run = self._check_rules()\n',
+         new='                    self._wn.sim_time -= backtrack\n                    if not first_step:\n                        wntr.sim.hydraulics.update_tank_heads(self._wn)\n                    rules_to_run = self._rules.check()\n'),
+    dict(name='rules-see-solution-window-before-a-control-instant',
+         file=CORE,
+         rule='R-C04-4',
+         old='                    self._rule_iter += 1\n                    if not first_step:\n                        wntr.sim.hydraulics.update_tank_heads(self._wn)\n                    rules_to_run = self._check_rules()\n',
+         new='                    self._rule_iter += 1\n                    if not first_step:\n                        wntr.sim.hydraulics.update_tank_heads(self._wn)\n                    rules_to_run = self._rules.check()\n'),
+    dict(name='rule-window-not-restored',
+         file=CORE,
+         rule='R-C04-4',
+         old='        saved = self._wn._prev_sim_time\n        prev_rule_time = (self._rule_iter - 2) * self._wn.options.time.rule_timestep\n        self._wn._prev_sim_time = max(saved, prev_rule_time)\n        try:\n            return self._rules.check()\n        finally:\n            self._wn._prev_sim_time = saved\n',
+         new='        prev_rule_time = (self._rule_iter - 2) * self._wn.options.time.rule_timestep\n        self._wn._prev_sim_time = max(self._wn._prev_sim_time, prev_rule_time)\n        return self._rules.check()\n'),
+    dict(name='quiet-le-spelled-not-greater',
+         file=CTRL,
+         silent=True,
+         old="        elif self._relation is Comparison.le and cur_time <= self._threshold:\n            self._backtrack = 0\n            return True\n        else:\n            self._backtrack = 0\n            return False\n\n\n@DocInheritor({'requires', 'evaluate', 'name'})\nclass ValueCondition",
+         new="        elif self._relation == Comparison.le and not cur_time > self._threshold:\n            self._backtrack = 0\n            return True\n        else:\n            self._backtrack = 0\n            return False\n\n\n@DocInheritor({'requires', 'evaluate', 'name'})\nclass ValueCondition"),
+    dict(name='quiet-clocktime-range-relations-table',
+         file=CTRL,
+         silent=True,
+         old='            elif self._relation is Comparison.gt:\n                if clock > self._threshold:\n                    self._backtrack = 0\n                    return True\n            elif self._relation is Comparison.lt:\n                if clock < self._threshold:\n                    self._backtrack = 0\n                    return True\n            elif self._relation is Comparison.le:\n                if clock <= self._threshold:\n                    self._backtrack = 0\n                    return True\n',
+         new='            else:\n                holds = {Comparison.gt: clock > self._threshold, Comparison.lt: clock < self._threshold, Comparison.le: not clock > self._threshold}\n                if holds.get(self._relation, False):\n                    self._backtrack = 0\n                    return True\n'),
+    dict(name='quiet-rule-window-inlined-from-sim-time',
+         file=CORE,
+         silent=True,
+         old='        saved = self._wn._prev_sim_time\n        prev_rule_time = (self._rule_iter - 2) * self._wn.options.time.rule_timestep\n        self._wn._prev_sim_time = max(saved, prev_rule_time)\n        try:\n            return self._rules.check()\n        finally:\n            self._wn._prev_sim_time = saved\n',
+         new='        model = self._wn\n        last_solution = model._prev_sim_time\n        previous_instant = model.sim_time - model.options.time.rule_timestep\n        model._prev_sim_time = previous_instant if previous_instant > last_solution else last_solution\n        triggered = self._rules.check()\n        model._prev_sim_time = last_solution\n        return triggered\n'),
 ]
